@@ -105,6 +105,9 @@ impl<L: Language> Pattern<L> {
 impl<L: Language> RecExpr<L> {
     pub fn parse(s: &str) -> Result<Self, ParseError> {
         let pat = Pattern::parse(s)?;
+        if !is_ground(&pat) {
+            return Err(ParseError::ParseState(tokenize(s)?));
+        }
         Ok(pattern_to_re(&pat))
     }
 }
@@ -118,18 +121,28 @@ impl<L: Language> MultiPattern<L> {
             if x.is_empty() { continue }
 
             let v: Box<[&str]> = x.split("==").collect();
-            assert_eq!(v.len(), 2);
+            let malformed = || ParseError::TokenState(x.to_string());
+            if v.len() != 2 {
+                return Err(malformed());
+            }
             let var: Pattern<L> = Pattern::parse(v[0])?;
             let rhs: Pattern<L> = Pattern::parse(v[1])?;
-            let Pattern::PVar(v) = var else { panic!("{var} isn't a PVar") };
-            let Pattern::ENode(n, children) = rhs else { panic!("{rhs} isn't an e-node") };
+            let Pattern::PVar(v) = var else { return Err(malformed()) };
+            let Pattern::ENode(n, children) = rhs else { return Err(malformed()) };
             let children = children.into_iter().map(|x| {
-                let Pattern::PVar(xx) = x else { panic!("child {x} isn't a PVar") };
-                xx
-            }).collect();
+                let Pattern::PVar(xx) = x else { return Err(malformed()) };
+                Ok(xx)
+            }).collect::<Result<_, _>>()?;
             out.push((v, n, children));
         }
         Ok(MultiPattern { pats: out })
+    }
+}
+
+fn is_ground<L: Language>(pat: &Pattern<L>) -> bool {
+    match pat {
+        Pattern::ENode(_, children) => children.iter().all(is_ground),
+        Pattern::PVar(_) | Pattern::Subst(..) => false,
     }
 }
 
@@ -140,7 +153,7 @@ fn parse_pattern<L: Language>(tok: &[Token]) -> Result<(Pattern<L>, &[Token]), P
         let (l, tok2) = parse_pattern(tok)?;
         tok = tok2;
 
-        let Token::ColonEquals = &tok[0] else {
+        let Some(Token::ColonEquals) = tok.get(0) else {
             return Err(ParseError::ExpectedColonEquals(to_vec(tok)));
         };
         tok = &tok[1..];
@@ -148,7 +161,7 @@ fn parse_pattern<L: Language>(tok: &[Token]) -> Result<(Pattern<L>, &[Token]), P
         let (r, tok2) = parse_pattern(tok)?;
         tok = tok2;
 
-        let Token::RBracket = &tok[0] else {
+        let Some(Token::RBracket) = tok.get(0) else {
             return Err(ParseError::ExpectedRBracket(to_vec(tok)));
         };
         tok = &tok[1..];
@@ -161,24 +174,26 @@ fn parse_pattern<L: Language>(tok: &[Token]) -> Result<(Pattern<L>, &[Token]), P
 fn parse_pattern_nosubst<L: Language>(
     mut tok: &[Token],
 ) -> Result<(Pattern<L>, &[Token]), ParseError> {
-    if let Token::PVar(p) = &tok[0] {
+    if let Some(Token::PVar(p)) = tok.get(0) {
         let pat = Pattern::PVar(p.to_string());
         return Ok((pat, &tok[1..]));
     }
 
-    if let Token::LParen = tok[0] {
+    if let Some(Token::LParen) = tok.get(0) {
         tok = &tok[1..];
 
-        let Token::Ident(op) = &tok[0] else {
+        let Some(Token::Ident(op)) = tok.get(0) else {
             return Err(ParseError::ParseState(to_vec(tok)));
         };
         tok = &tok[1..];
 
         let mut syntax_elems = vec![NestedSyntaxElem::String(op.to_string())];
         loop {
-            if let Token::RParen = tok[0] {
-                break;
-            };
+            match tok.get(0) {
+                Some(Token::RParen) => break,
+                None => return Err(ParseError::ParseState(Vec::new())),
+                _ => {}
+            }
 
             let (se, tok2) = parse_nested_syntax_elem(tok)?;
             tok = tok2;
@@ -207,7 +222,7 @@ fn parse_pattern_nosubst<L: Language>(
         let re = Pattern::ENode(node, syntax_elems);
         Ok((re, tok))
     } else {
-        let Token::Ident(op) = &tok[0] else {
+        let Some(Token::Ident(op)) = tok.get(0) else {
             return Err(ParseError::ParseState(to_vec(tok)));
         };
         tok = &tok[1..];
@@ -230,7 +245,7 @@ enum NestedSyntaxElem<L: Language> {
 fn parse_nested_syntax_elem<L: Language>(
     tok: &[Token],
 ) -> Result<(NestedSyntaxElem<L>, &[Token]), ParseError> {
-    if let Token::Slot(slot) = &tok[0] {
+    if let Some(Token::Slot(slot)) = tok.get(0) {
         return Ok((NestedSyntaxElem::Slot(*slot), &tok[1..]));
     }
 
